@@ -1,5 +1,5 @@
 """C25 — Value and log encodings round-trip safely (TABLES + bounded allocation + RECUR)."""
-from .. import recur, tables
+from .. import bounds, recur, tables
 from ..facts import op_local
 from ..mirutil import upper_bound_guards, value_root, site_key
 
@@ -96,6 +96,7 @@ def run(ctx):
     ctx.rule("C25.1", "encoder and decoder tag tables are the same bijection over all variants, with equal fixed-width field multisets")
     ctx.rule("C25.2", "allocations sized from decoded integers are dominated by an upper-bound test")
     ctx.rule("C25.3", "self-recursive decoders carry a depth bound")
+    ctx.rule("C25.4", "BOUNDS: every slice / element index into decoder input is within the length established on that path")
 
     # ---------------- WalRecord
     adt = ctx.adt(WALREC)
@@ -223,3 +224,29 @@ def run(ctx):
         ctx.oblige(g is not None, "C25.3", fn + ":unbounded-recursion",
                    "the decoder recurses once per nesting level of the input with no depth bound: a small deeply nested value overflows the stack", b.file)
     ctx.floor("C25.3", "decoders inspected", len(ctx.instances["C25.3"]), 2)
+
+    # ---------------- clause 4: BOUNDS abstract interpretation
+    for fn, contract, sw_ in ((DEC_BODY, False, dsw), (PV_DEC, True, pdsw)):
+        b = F.bodies[fn]
+        an, obs = bounds.analyse(F, fn, contract_fns=[PV_DEC], check_return_contract=contract)
+        ctx.note("BOUNDS %s: %d obligations, converged=%s, join candidates %s" % (fn, len(obs), an.converged, {k: len(v[1]) for k, v in an._cand.items()}))
+        # which decoder arm does a block belong to?
+        arm_of = {}
+        if sw_:
+            for val, tb in sw_[1].items():
+                for x in tables.dominated_region(b, tb, sw_[0]):
+                    arm_of.setdefault(x, val)
+        per_arm = {}
+        for o in sorted(obs, key=lambda o: (o.line, o.bb, str(o.ordinal))):
+            arm = arm_of.get(o.bb, "pre")
+            k = per_arm.get((arm, o.kind), 0)
+            per_arm[(arm, o.kind)] = k + 1
+            key = "%s:tag(%s):%s#%d" % (fn, arm, o.kind, k)
+            ok = bool(o.ok) and an.converged
+            ctx.instance("C25.4", "%s tag %s %s#%d (%s) line %d: %s" % (fn.split("::")[-1], arm, o.kind, k, o.desc, o.line, "discharged" if ok else "OPEN"))
+            ctx.oblige(ok, "C25.4", key,
+                       "decoder reads beyond the length it has checked on this path (%s; needs %s >= 0): a CRC-valid / well-framed but short input "
+                       "makes the slice operation panic" % (o.desc, o.H.show(an.names) if o.H is not None else "?"),
+                       "%s:%d" % (b.file, o.line),
+                       sample={"fn": fn, "tag": arm, "obligation": o.desc, "needs": o.H.show(an.names) if o.H is not None else None})
+    ctx.floor("C25.4", "BOUNDS obligations", len(ctx.instances["C25.4"]), 100)
